@@ -174,7 +174,7 @@ PROPS = {
     "C02": {
         "level": "proof",
         "level_prefix": "Partial proof -- contracts discharged without bound on the mechanisms named below, not the whole statement (bounded stand-ins and what is left out are listed): ",
-        "units": ["compressors", "msgbuilder"],
+        "units": ["compressors", "msgbuilder", "msgsections"],
         "vx_search": {"bin": "c02_search_builder_sequences", "crate": "replay", "release": True,
                       "what": "22621 sequences of at most 4 answer pushes (three owner names sharing suffixes; unrestricted or under a push limit "
                               "that makes the push fail after 1, 5 or 12 octets) x {no compressor, Static-, Tree-, HashCompressor}: the message "
@@ -209,7 +209,11 @@ PROPS = {
                        "AnswerBuilder::push, AuthorityBuilder::push and AdditionalBuilder::push (real text, closures annotated in place) "
                        "are checked against that contract: the closures they pass only append / leave the counts alone on overflow, so "
                        "each of them is all-or-nothing for every question or record type; OptBuilder::push_raw_option rolls back a "
-                       "failed option. Kani: HeaderCounts increments complete over all headers; StreamTarget prefix and "
+                       "failed option. Section changes and rewinds (unit msgsections, real text of rewind(), builder(), question(), answer(), "
+                       "authority(), additional() and new() of the message builder and the four section builders, 31 functions): going back "
+                       "cuts the message to exactly where the later section(s) began and resets exactly their counters to zero -- octets before "
+                       "that point and the counters of earlier sections untouched (lemma_cut_meaning) --, going forward changes no octet and "
+                       "starts the new section at the current end. Kani: HeaderCounts increments complete over all headers; StreamTarget prefix and "
                        "all-or-nothing push are bounded harnesses (bounds stated). Native replay of D4 for all three compressors.",
         "not_covered": "The sequence-level round trip (arbitrary pushes parse back to the same items) is not under contract: a CBMC "
                        "harness for it does not terminate, MessageBuilder::push takes FnOnce(&mut Target) closures (outside Verus), "
